@@ -166,7 +166,7 @@ def main(chk):
             jobs.append((unroll_family, (mir, name, n, (3 * n + 4) if q else (4 * n + 4), chk.seed, to), {}))
     chk.add(run_jobs(jobs))
     hs = [k_bb_mean_table(2, 6, chk.seed)] + ([k_bb_mean(2, 5), k_bb_mean_table(3, 8, chk.seed), k_bb_mean(3, 6)] if not q else [])
-    chk.add(kani.run_family_set('C13', hs, jobs=4, timeout_s=240 if q else 3600))
+    chk.add(kani.run_family_set('C13', hs, jobs=4, timeout_s=240 if q else 900))
     chk.assumptions += ['f64 arithmetic modelled as exact real arithmetic in engine R: what is decided is the absence of ALGEBRAIC drift',
                         'the inductive invariant (each accumulator equals its definition over the ring buffer, unfilled slots are 0) is hand-written over field names; '
                         'a failed step is reported as ceiling-not-reached, never as a violation']
